@@ -2,7 +2,7 @@
 //! case: [0, net, h] -> obs = [minimum_at_height(net, Height(h))]
 //!       [1, net, r] -> obs = [0] (None) | [1, height]
 //! net: 0 Bitcoin, 1 Testnet, 2 Signet, 3 Regtest, 4 Testnet4
-use crate::c32::first_with_letters;
+use crate::c32::{first_with_letters, try_impl};
 use bitcoin::Network;
 use hxlib::*;
 use ordinals::{Height, Rune};
@@ -28,7 +28,8 @@ pub fn gen(rng: &mut Rng, tier: &str) -> Vec<Line> {
   let thorough = tier == "thorough";
   let mut v = Vec::new();
   for net in 0..5u8 {
-    let start = Rune::first_rune_height(network(net));
+    // generators must survive a panicking implementation: fall back to the documented activation heights
+    let start = try_impl(|| Rune::first_rune_height(network(net))).unwrap_or([840_000, 2_520_000, 0, 0, 0][usize::from(net)]);
     let mut hs: Vec<u32> = vec![0, 1, 2, u32::MAX, u32::MAX - 1, u32::MAX - 2];
     for k in 0..=12u32 {
       let b = start + k * INTERVAL;
@@ -52,9 +53,11 @@ pub fn gen(rng: &mut Rng, tier: &str) -> Vec<Line> {
       v.push(L::new().p(0u8).p(net).p(h).done());
       // names at the minimum of this height and its neighbours
       if thorough || j % 3 == 0 || j < 80 {
-        let m = min_at(net, h);
-        for r in [m, m.wrapping_sub(1), m.wrapping_add(1)] {
-          v.push(L::new().p(1u8).p(net).p(r).done());
+        // names at the implementation's own minimum (skipped if it panics; `run` reports that)
+        if let Some(m) = try_impl(|| min_at(net, h)) {
+          for r in [m, m.wrapping_sub(1), m.wrapping_add(1)] {
+            v.push(L::new().p(1u8).p(net).p(r).done());
+          }
         }
       }
     }
@@ -84,11 +87,11 @@ pub fn run(case: &Line) -> Outcome {
   let mut c = Cur::new(case);
   let op = c.u8();
   let net = c.u8();
-  let start = Rune::first_rune_height(network(net));
   match op {
     0 => {
       let h = c.u32();
       guarded("minimum", || {
+        let start = Rune::first_rune_height(network(net));
         let m = min_at(net, h);
         let mut oracle = Ok(());
         // monotone against the neighbours
@@ -119,6 +122,7 @@ pub fn run(case: &Line) -> Outcome {
     _ => {
       let r = c.u128();
       guarded("unlock", || {
+        let start = Rune::first_rune_height(network(net));
         let u = Rune(r).unlock_height(network(net));
         let mut oracle = Ok(());
         let (obs, cat) = match u {
@@ -138,7 +142,7 @@ pub fn run(case: &Line) -> Outcome {
             if u > 0 && min_at(net, u - 1) <= r {
               oracle = Err(format!("net {net}: name {r} reported unlocked at {u} but already etchable at {}", u - 1));
             }
-            let zone = if u == 0 { "zero".to_string() } else { format!("interval{}", (u - start) / INTERVAL) };
+            let zone = if u == 0 { "zero".to_string() } else { format!("interval{}", u.saturating_sub(start) / INTERVAL) };
             (L::new().p(1u8).p(u).done(), format!("unlock/net{net}/{zone}"))
           }
         };
